@@ -19,6 +19,8 @@ CONSTANTS MaxM, MaxN
 
 Trace == ndJsonDeserialize("hmm_trace.ndjson")
 TAB == Tup([m \in 1..MaxM |-> Tup([n \in 1..MaxN |-> Tables(m, n)], MaxN)], MaxM)
+(* evaluated at start-up: forces the tables to be computed once and checks them *)
+ASSUME \A m \in 1..MaxM : \A n \in 1..MaxN : (NPaths(m, n) <= 300) => TablesOK(TAB[m][n], m, n)
 
 VARIABLE l
 Ev == Trace[l]
